@@ -489,12 +489,18 @@ func (s *Session) oneShot(t *Term, wantModel bool) (Result, Model, string) {
 	}
 	parse := func(solver, txt string) ans {
 		txt = strings.TrimSpace(txt)
+		if strings.HasPrefix(txt, "unsat") {
+			// a following (error ...) only comes from the get-value that cannot be answered after unsat
+			rest := strings.TrimSpace(strings.TrimPrefix(txt, "unsat"))
+			if rest == "" || (strings.HasPrefix(rest, "(error") && strings.Count(rest, "(error") == 1 && wantModel) {
+				return ans{solver, Unsat, nil, ""}
+			}
+			return ans{solver, Unknown, nil, solver + ": " + trunc(txt, 300)}
+		}
 		if strings.Contains(txt, "(error") {
 			return ans{solver, Unknown, nil, solver + ": " + trunc(txt, 300)}
 		}
 		switch {
-		case strings.HasPrefix(txt, "unsat"):
-			return ans{solver, Unsat, nil, ""}
 		case strings.HasPrefix(txt, "sat"):
 			if !wantModel {
 				return ans{solver, Sat, nil, ""}
